@@ -52,14 +52,14 @@ def register(P):
     P.ORACLE_COMPONENT["nagle"] = "vsock"
     P.KNOWN_DEMOS[_json.dumps({"oracle": "stream", "what": "diverged_after_delivered_probe_was_resplit"}, sort_keys=True)] = _demo_d2(P)
     reg(P, "C18", ["UtpVerif.Props.C18"], ["stream_content", "nagle"])
-    reg(P, "C05", ["UtpVerif.Props.C05"], ["window", "slow_start"])
+    reg(P, "C05", ["UtpVerif.Props.C05"], ["window", "slow_start", "cc_accounting"])
     reg(P, "C07", ["UtpVerif.Props.C07"], ["ack_timeliness", "ack_forcing", "window_reopen"])
     reg(P, "C17", ["UtpVerif.Props.C17"], ["stream_content", "fin_sent", "reset"])
     reg(P, "C01", ["UtpVerif.Props.C01", "UtpVerif.Props.C01E2E"], ["stream_content"], ["segs", "txring", "rx"])
     reg(P, "C02", ["UtpVerif.Props.C02"], ["calls_resolve", "ack_timeliness", "rtx_timer", "zero_window_probe", "window_reopen"], ["txring", "rx"])
-    reg(P, "C03", ["UtpVerif.Props.C03"], ["calls_resolve", "stream_content", "ack_honesty", "fin_sent", "eof_honest"], ["txring", "rx"])
+    reg(P, "C03", ["UtpVerif.Props.C03"], ["calls_resolve", "stream_content", "ack_honesty", "fin_sent", "eof_honest", "completion_honest"], ["txring", "rx"])
     reg(P, "C06", ["UtpVerif.Props.C06"], ["stream_content", "retx_cap"], ["segs"])
-    reg(P, "C08", ["UtpVerif.Props.C08"], ["calls_resolve", "task_ends"])
+    reg(P, "C08", ["UtpVerif.Props.C08"], ["calls_resolve", "task_ends", "inactivity_discipline"])
     reg(P, "C10", ["UtpVerif.Props.C10"], ["bug_errors"], ["segs", "rx", "wire"])
     # component oracles of the extra components
     P.PROPS["C01"]["oracles"]["segs"] = lambda case, impl: P.SEGS_ORACLE(case, impl)
@@ -75,7 +75,7 @@ def register(P):
     P.PROPS["C14"]["oracles"]["datagram_sizes"] = VO.ALL["datagram_sizes"]
     P.PROPS["C14"]["oracles"]["stream_content"] = VO.ALL["stream_content"]
     P.PROPS["C14"]["oracles"]["probe_discipline"] = VO.ALL["probe_discipline"]
-    for _o in ("probe_discipline", "reset", "slow_start", "eof_honest", "ack_forcing", "window_reopen"):
+    for _o in ("probe_discipline", "reset", "slow_start", "eof_honest", "ack_forcing", "window_reopen", "cc_accounting", "inactivity_discipline", "completion_honest"):
         P.ORACLE_COMPONENT[_o] = "vsock"
     P.ORACLE_COMPONENT["datagram_sizes"] = "vsock"
     P.PROPS["C04"]["components"].append("vsock")
